@@ -69,7 +69,7 @@ def plan(tier, seed):
         groups, per = 16, 5000
         nfresh = 32
     for g in range(groups):
-        base = dict(group=g, first_case=g * per, n=per, hard_timeout=900)
+        base = dict(group=g, first_case=g * per, n=per, hard_timeout=1500)
         shards.append(dict(name=f'ref{g}', mode='nrt', kind='ref',
                            env={'PYTHONHASHSEED': '0'}, **base))
         shards.append(dict(name=f'rev{g}', mode='nrt', kind='rev',
